@@ -6,7 +6,7 @@ import re
 from typing import Any
 
 from sa.report import Ctx
-from sa.srcmodel import ClassInfo, FuncInfo, Module, func_body
+from sa.srcmodel import FuncInfo, Module, func_body
 
 BP = "moptipyapps.binpacking2d."
 
@@ -1160,10 +1160,13 @@ def _parses_into_fresh(fi: FuncInfo) -> bool:
                     else xs[0].target)
     txt = fi.params[1]
     ok = False
+    from sa.srcmodel import inline_locals
     for c in ast.walk(fi.node):
         if isinstance(c, ast.Call) and ast.unparse(c.func) == "np.copyto" \
-                and len(c.args) == 2 and ast.unparse(c.args[0]) == x:
-            srcx = c.args[1]
+                and len(c.args) == 2 and not c.keywords and ast.unparse(
+                c.args[0]) == x:
+            # temporaries between the parse and the copy are looked through
+            srcx = inline_locals(fi.node, c.args[1], keep={x})
             if isinstance(srcx, ast.Call) and isinstance(
                     srcx.func, ast.Attribute) and srcx.func.attr == \
                     "reshape" and [ast.unparse(a) for a in srcx.args] == [
